@@ -1558,9 +1558,19 @@ def pred_c19(line, st):
     return None
 
 
+from pred_c19b import pred_c19b, c19b_final  # noqa: E402  (packet emitters, fingerprints, key ids)
+
+
+def pred_c19_all(line, st):
+    if line.startswith(("pgpenc.", "prop.pgpenc")):
+        return pred_c19b(line, st)
+    return pred_c19(line, st)
+
+
 PROPS["C19"] = dict(
     module="TmcgProps.C19",
-    areas=[("pgpcodec", {"quick": 120, "thorough": 1500}, ["--s2k-sample"], "san")],
+    areas=[("pgpcodec", {"quick": 120, "thorough": 1500}, ["--s2k-sample"], "san"),
+           ("pgpenc", {"quick": 12, "thorough": 60}, [], "san")],
     obligations=[("Tmcg.C19.radix64_roundtrip", "full"), ("Tmcg.C19.radix64_lines_le_76", "full"),
                  ("Tmcg.C19.crc24_spec", "full"), ("Tmcg.C19.len_roundtrip", "full"),
                  ("Tmcg.C19.len_forms_disjoint", "full"), ("Tmcg.C19.partial_len_pow2", "full"),
@@ -1569,8 +1579,9 @@ PROPS["C19"] = dict(
                  ("Tmcg.C19.string_roundtrip", "full"),
                  ("Tmcg.C19.s2k_full_input_once", "full"), ("Tmcg.C19.s2k_feed_length", "full"),
                  ("Tmcg.C19.s2k_feed_periodic", "full"), ("Tmcg.C19.s2k_context_preload", "full"),
-                 ("Tmcg.C19.s2k_key_length", "full")],
-    predicate=pred_c19,
+                 ("Tmcg.C19.s2k_key_length", "full")]
+                + [("Tmcg.C19." + n, "full") for n in ['pub_roundtrip', 'sec_roundtrip', 'secProt_roundtrip', 'pkesk_roundtrip', 'sig_roundtrip', 'prepared_roundtrip', 'uid_roundtrip', 'lit_roundtrip', 'sed_roundtrip', 'seipd_roundtrip', 'mdc_roundtrip', 'aead_roundtrip', 'packetDecodeE_packet', 'packet_header', 'header_shortest', 'pubEncode_header', 'secEncode_header', 'pkeskEncode_header', 'sigEncode_header', 'uidEncode_header', 'litEncode_header', 'sedEncode_header', 'seipdEncode_header', 'aeadEncode_header', 'mdcEncode_header', 'sedEncode_eq', 'seipdEncode_eq', 'aeadEncode_eq', 'fprFrame_injective', 'fprFrame_versions_disjoint', 'fprFrame_v4', 'fprFrame_v5', 'keyid_v4', 'keyid_v5', 'issuerSubs_keyid', 'subSplit_encode', 'area_roundtrip', 'parseSubs_recognised', 'areaOk_of_recognised', 'areaOk_of_allFine', 'selfSubs_fine', 'revokerSubs_fine', 'detachedSubs_fine', 'detachedV5Subs_fine', 'revocationSubs_fine', 'certSubs_fine', 'timestampSubs_fine', 'attestSubs_fine', 'prepSelf_eq', 'prepCert_eq', 'prepDetachedV5_eq', 'takeMpi_encode', 'takeMpis_encode', 'matDecode_encode', 'exampleRsa_wf', 'exampleEcdh_wf', 'exampleSec_wf', 'examplePkesk_wf', 'exampleSig_wf', 'exampleRsa_roundtrip', 'exampleSig_roundtrip']],
+    predicate=pred_c19_all, final=lambda st: (c19b_final(st) if any(k.startswith("pe") or k.startswith("c19b") for k in st) else None),
     level_text="Lean 4 theorems about a model of the OpenPGP encodings written from RFC 4880: radix-64 round trip and line length, CRC-24 = polynomial division with the generated constants, body lengths (all n < 2^32, forms disjoint, partial lengths powers of two), MPIs, strings, armor round trip and checksum rejection for the four armor types, all 256 iterated-S2K count octets, the octet stream every S2K hash context is fed (full salt+passphrase at least once, periodic, count or input length, j zero octets of preload) and the key length. "
                "Correspondence: the real static methods vs the model byte for byte (encoders on all boundary sizes; decoders also on arbitrary and mutated input); the predicate judges emitted octets by an independent reference (Python base64, a reference CRC-24, the RFC formulas). "
                "Partial: the packet emitters (signature, key, PKESK, SKESK, literal, SEIPD, AEAD ...), fingerprints/key ids are not modelled yet (the S2K streams are: the digests themselves are libgcrypt's, checked against hashlib by the predicate); GnuPG as second oracle was used once by hand (gpg --dearmor accepted the emitted armors) and is not part of the check.",
